@@ -15,4 +15,12 @@ PROPS = {
         stub=["publish function (records, parks, fails or sleeps per plan)"],
         assumptions=COMMON_ASSUMPTIONS + ["values of concurrent (overlapping) Update calls are unordered: either may be the one finally published"],
     ),
+    "C02": dict(
+        harness="c02", pkg="blockstore", test="TestVerifC02", yield_pkgs=["blockstore"], level="exploration",
+        quick=dict(runs=16 * 2500, budget=90), thorough=dict(runs=16 * 60000, budget=1500),
+        rule="one case = cache configuration (two-queue size 1..64 and/or Bloom 1..512 bytes, 1..7 hashes, WriteThrough), pre-populated keys, 1-4 client tasks with <=8 (quick) / <=16 (thorough) ops over <=6 multihashes (CID aliases), datastore fault plan (op errors, enumeration error at position k, build-context cancel), scheduling tape; distinct = distinct event-log fingerprint; non-trivial = at least one context switch or injected fault",
+        real=["blockstore.CachedBlockstore: tqcache + bloomcache (initial build goroutine, Rebuild, Wait)", "default blockstore + namespace wrapper", "hashicorp 2Q cache, ipfs/bbloom"],
+        stub=["datastore (simds: snapshot enumeration, per-entry scheduling points, injected errors)"],
+        assumptions=COMMON_ASSUMPTIONS + ["datastore enumeration is a point-in-time snapshot (the documented assumption of Rebuild)", "an injected datastore error happens before the operation takes effect, so a failed write is a no-op in the model", "linearizability is decided by porcupine per multihash; an Unknown (timeout) result is counted, never reported"],
+    ),
 }
